@@ -1801,3 +1801,185 @@ Proof.
     + right. right. apply orb_false_iff in Eflip. destruct Eflip as [_ E]. intros [H1 H2].
       rewrite H1, H2, Nat.eqb_refl in E. discriminate.
 Qed.
+
+(* ------------------------------------------------------------------------------------------------ *)
+(* Stage D: the step lemma for set_contiguous, by induction on the fuel *)
+Lemma sublist_refl {X} (l : list X) : sublist l l.
+Proof. induction l; [constructor|now apply sl_keep]. Qed.
+Lemma sublist_app_r {X} (a b : list X) : sublist b (a ++ b).
+Proof. induction a; simpl; [apply sublist_refl|now apply sl_skip]. Qed.
+Lemma sublist_app_l {X} (a b : list X) : sublist a (a ++ b).
+Proof. induction a; simpl; [apply sublist_nil_l|now apply sl_keep]. Qed.
+Lemma sublist_trans_app {X} (x a b : list X) : sublist x b -> sublist x (a ++ b).
+Proof. intros H. induction a; simpl; [exact H|now apply sl_skip]. Qed.
+
+Lemma sublist_flat_map {X Y} (f : X -> list Y) l x : In x l -> sublist (f x) (flat_map f l).
+Proof.
+  induction l as [|y t IH]; simpl; [tauto|]. intros [->|H]; [apply sublist_app_l|]. apply sublist_trans_app. now apply IH.
+Qed.
+
+Lemma mapM_intro {X Y} (g : X -> result Y) l :
+  Forall (fun x => exists y, g x = Ok y) l -> exists ys, mapM g l = Ok ys /\ Forall2 (fun x y => g x = Ok y) l ys.
+Proof.
+  induction 1 as [|x t (y & Hy) Ht (ys & E & F)]; simpl; [exists []; split; constructor|].
+  exists (y :: ys). rewrite Hy. simpl. rewrite E. simpl. split; [reflexivity|constructor; auto].
+Qed.
+
+Lemma child_leaves k cs f : proper (Node k cs) = true -> length (ordering (Node k cs)) <= S f ->
+  forall c, In c cs -> length (ordering c) <= f.
+Proof.
+  intros Hp Hlen c Hc. apply proper_node_iff in Hp. destruct Hp as [Hn Hpc]. simpl in Hlen.
+  assert (Hsum : forall l : list pq, Forall (fun c => proper c = true) l -> length l <= length (flat_map ordering l)).
+  { induction 1 as [|x l Hx Hl IHl]; simpl; [lia|]. rewrite app_length. apply proper_leaves in Hx.
+    destruct (ordering x); [congruence|simpl; lia]. }
+  apply in_split in Hc. destruct Hc as (l1 & l2 & ->). rewrite flat_map_app in Hlen. simpl in Hlen.
+  rewrite !app_length in Hlen. apply Forall_app in Hpc. destruct Hpc as [Hp1 Hp2]. inversion Hp2; subst.
+  pose proof (Hsum l1 Hp1). pose proof (Hsum l2 H2). rewrite app_length in Hn. simpl in Hn. lia.
+Qed.
+
+Definition StepFull : Prop :=
+  forall f v t o, proper t = true -> length (ordering t) <= f -> Ord t o -> Interval (fun s => In v s) o ->
+    exists t' st, set_contiguous f v t = Ok (t', st) /\ Ord t' o /\ (st = SPartU -> U2 v t').
+
+(* the two passes over the children (cb = a child with its block of the frontier) *)
+Lemma passes_complete f v :
+  (forall t o, proper t = true -> length (ordering t) <= f -> Ord t o -> Interval (fun s => In v s) o ->
+     exists t' st, set_contiguous f v t = Ok (t', st) /\ Ord t' o /\ (st = SPartU -> U2 v t')) ->
+  forall CB : list (pq * list (list nat)),
+    Forall (fun cb => proper (fst cb) = true /\ length (ordering (fst cb)) <= f /\ Ord (fst cb) (snd cb) /\
+                      Interval (fun s => In v s) (snd cb)) CB ->
+    exists cs1 res,
+      mapM (fun c => rmap fst (set_contiguous f v c)) (map fst CB) = Ok cs1 /\ length cs1 = length CB /\
+      mapM (set_contiguous f v) (map flat_ret cs1) = Ok res /\
+      exists T : list item, map ic T = map fst res /\ map ist T = map snd res /\ Forall (GoodItem v) T /\
+                            Forall2 (fun cb x => ib x = snd cb) CB T.
+Proof.
+  intros IH CB H. induction H as [|[c blk] CB (Hp & Hl & Ho & Hi) HCB IHCB]; simpl in *.
+  - exists [], []. repeat split; auto. exists []. repeat split; constructor.
+  - destruct IHCB as (cs1 & res & E1 & Hlen & E2 & T & HT1 & HT2 & HG & HF).
+    destruct (IH c blk Hp Hl Ho Hi) as (c1 & st1 & Ec1 & Ho1 & _).
+    destruct (set_contiguous_post f v c c1 st1 Hp Ec1) as (HS1 & HAl1 & _ & Hperm1 & _).
+    assert (Hp2 : proper (flat_ret c1) = true) by now apply AlmostProper_flat.
+    assert (Hl2 : length (ordering (flat_ret c1)) <= f) by now rewrite ordering_flat_ret, <- (Permutation_length Hperm1).
+    destruct (IH (flat_ret c1) blk Hp2 Hl2 (Ord_flat_ret_c c1 blk Ho1) Hi) as (c3 & st3 & Ec3 & Ho3 & HU3).
+    destruct (set_contiguous_post f v _ c3 st3 Hp2 Ec3) as (HS3 & _ & HB3 & _ & _).
+    assert (Hp3 : proper c3 = true) by (apply HB3, CF_flat_ret; now apply (StOK_CF v c1 st1)).
+    exists (c1 :: cs1), ((c3, st3) :: res). rewrite Ec1. simpl. rewrite E1. simpl. rewrite Ec3. simpl. rewrite E2. simpl.
+    repeat split; auto.
+    exists (((c3, st3), blk) :: T). simpl. rewrite HT1, HT2. repeat split; auto.
+    constructor; [|exact HG]. unfold GoodItem, ic, ist, ib. simpl. auto.
+Qed.
+
+Lemma F2_blocks (CB : list (pq * list (list nat))) (T : list item) :
+  Forall2 (fun cb x => ib x = snd cb) CB T -> flat_map ib T = flat_map snd CB.
+Proof. induction 1 as [|cb x CB T H _ IH]; simpl; [reflexivity|]. now rewrite H, IH. Qed.
+
+Lemma Forall2_to_pairs l os : Forall2 Ord l os ->
+  exists CB : list (pq * list (list nat)), map fst CB = l /\ map snd CB = os /\ Forall (fun cb => Ord (fst cb) (snd cb)) CB.
+Proof.
+  induction 1 as [|c o l os H _ (CB & E1 & E2 & HF)]; [exists []; repeat split; constructor|].
+  exists ((c, o) :: CB). simpl. rewrite E1, E2. repeat split; auto.
+Qed.
+
+Lemma CB_props v k cs f o (CB : list (pq * list (list nat))) :
+  proper (Node k cs) = true -> length (ordering (Node k cs)) <= S f -> Interval (fun s => In v s) o ->
+  Permutation cs (map fst CB) -> Forall (fun cb => Ord (fst cb) (snd cb)) CB ->
+  (forall cb, In cb CB -> sublist (snd cb) o) ->
+  Forall (fun cb => proper (fst cb) = true /\ length (ordering (fst cb)) <= f /\ Ord (fst cb) (snd cb) /\
+                    Interval (fun s => In v s) (snd cb)) CB.
+Proof.
+  intros Hp Hlen Hint HP HO Hsub. apply Forall_forall. intros cb Hcb.
+  assert (Hin : In (fst cb) cs) by (eapply Permutation_in; [apply Permutation_sym; exact HP|now apply in_map]).
+  repeat split.
+  - apply proper_node_iff in Hp. destruct Hp as [_ Hp]. rewrite Forall_forall in Hp. auto.
+  - now apply (child_leaves k cs f Hp Hlen).
+  - rewrite Forall_forall in HO. auto.
+  - apply (Interval_sublist _ _ o); auto.
+Qed.
+
+Theorem step_full : StepFull.
+Proof.
+  intros f. induction f as [|f IH]; intros v t o Hp Hlen Ho Hint.
+  - destruct t as [s|k cs].
+    + rewrite set_contiguous_leaf. eexists _, _. split; [reflexivity|]. split; [exact Ho|]. now destruct (memn v s).
+    + exfalso. apply proper_leaves in Hp. destruct (ordering (Node k cs)); [congruence|simpl in Hlen; lia].
+  - destruct t as [s|k cs].
+    { rewrite set_contiguous_leaf. eexists _, _. split; [reflexivity|]. split; [exact Ho|]. now destruct (memn v s). }
+    pose proof Hp as Hp0. apply proper_node_iff in Hp0. destruct Hp0 as [Hn Hpc].
+    rewrite set_contiguous_node.
+    (* the common part: given the children with their blocks, run the two passes *)
+    assert (Hrun : forall CB : list (pq * list (list nat)), cs = map fst CB ->
+              Forall (fun cb => proper (fst cb) = true /\ length (ordering (fst cb)) <= f /\ Ord (fst cb) (snd cb) /\
+                                Interval (fun s => In v s) (snd cb)) CB ->
+              exists T : list item, Forall (GoodItem v) T /\ Forall2 (fun cb x => ib x = snd cb) CB T /\
+                (forall r, (match k with KP => p_cases v (map ic T) (map ist T) | KQ => q_cases v (map ic T) (map ist T) end) = r ->
+                   rbind (mapM (fun c => rmap fst (set_contiguous f v c)) cs) (fun cs1 =>
+                     let cs2 := match cs1 with [c] => [flat_inplace c] | _ => map flat_ret cs1 end in
+                     rbind (mapM (set_contiguous f v) cs2) (fun res =>
+                       match k with KP => p_cases v (map fst res) (map snd res) | KQ => q_cases v (map fst res) (map snd res) end)) = r)).
+    { intros CB Ecs HCB. destruct (passes_complete f v (IH v) CB HCB) as (cs1 & res & E1 & Hl1 & E2 & T & HT1 & HT2 & HG & HF).
+      exists T. split; [exact HG|]. split; [exact HF|]. intros r Hr. rewrite Ecs, E1. simpl rbind.
+      assert (Ecs2 : match cs1 with [c] => [flat_inplace c] | _ => map flat_ret cs1 end = map flat_ret cs1).
+      { destruct cs1 as [|a [|b r']]; try reflexivity. simpl in Hl1. rewrite Ecs, map_length in Hn. lia. }
+      cbv zeta. rewrite Ecs2, E2. simpl rbind. rewrite <- HT1, <- HT2. exact Hr. }
+    destruct k.
+    + (* P-node *)
+      apply Ord_P in Ho. destruct Ho as (cs' & HP & (os & HO & ->)).
+      destruct (Forall2_to_pairs cs' os HO) as (CB' & E1 & E2 & HF').
+      rewrite <- E1 in HP. destruct (Permutation_map_inv _ _ HP) as (CB & Ecs & HPCB).
+      assert (Ho_eq : concat os = flat_map snd CB') by (rewrite <- E2; symmetry; apply flat_map_concat_map).
+      assert (HCB : Forall (fun cb => proper (fst cb) = true /\ length (ordering (fst cb)) <= f /\ Ord (fst cb) (snd cb) /\
+                                      Interval (fun s => In v s) (snd cb)) CB).
+      { apply (CB_props v KP cs f (concat os) CB Hp Hlen Hint).
+        - rewrite Ecs. reflexivity.
+        - eapply Permutation_Forall; [exact HPCB|exact HF'].
+        - intros cb Hcb. rewrite Ho_eq. apply (sublist_flat_map snd CB' cb).
+          eapply Permutation_in; [apply Permutation_sym; exact HPCB|exact Hcb]. }
+      destruct (Hrun CB Ecs HCB) as (T & HG & HF & Heq).
+      destruct (Forall2_perm _ CB CB' T (Permutation_sym HPCB) HF) as (T' & HPT & HF2).
+      assert (HnT : 2 <= length T) by (rewrite <- (Forall2_len' _ _ _ HF), <- (map_length fst CB), <- Ecs; exact Hn).
+      assert (Hint' : Interval (fun s => In v s) (flat_map ib T')) by (rewrite (F2_blocks CB' T' HF2), <- Ho_eq; exact Hint).
+      destruct (p_cases_complete v T T' HnT HG HPT Hint') as (t' & st & Ec & Hot & HU).
+      exists t', st. split; [now apply Heq|]. split; [|exact HU]. rewrite Ho_eq, <- (F2_blocks CB' T' HF2). exact Hot.
+    + (* Q-node *)
+      apply Ord_Q in Ho. destruct Ho as [(os & HO & ->)|(os & HO & ->)].
+      * destruct (Forall2_to_pairs cs os HO) as (CB & E1 & E2 & HF').
+        assert (Ho_eq : concat os = flat_map snd CB) by (rewrite <- E2; symmetry; apply flat_map_concat_map).
+        assert (HCB : Forall (fun cb => proper (fst cb) = true /\ length (ordering (fst cb)) <= f /\ Ord (fst cb) (snd cb) /\
+                                        Interval (fun s => In v s) (snd cb)) CB).
+        { apply (CB_props v KQ cs f (concat os) CB Hp Hlen Hint); [now rewrite E1|exact HF'|].
+          intros cb Hcb. rewrite Ho_eq. now apply (sublist_flat_map snd CB cb). }
+        destruct (Hrun CB (eq_sym E1) HCB) as (T & HG & HF & Heq).
+        assert (HnT : 2 <= length T) by (rewrite <- (Forall2_len' _ _ _ HF), <- (map_length fst CB), E1; exact Hn).
+        assert (Hint' : Interval (fun s => In v s) (flat_map ib (if true then T else rev T)))
+          by (simpl; rewrite (F2_blocks CB T HF), <- Ho_eq; exact Hint).
+        destruct (q_cases_complete v T true HnT HG Hint') as (t' & st & Ec & Hot & HU).
+        exists t', st. split; [now apply Heq|]. split; [|exact HU]. simpl in Hot. rewrite Ho_eq, <- (F2_blocks CB T HF). exact Hot.
+      * destruct (Forall2_to_pairs (rev cs) os HO) as (CBr & E1 & E2 & HF').
+        set (CB := rev CBr).
+        assert (Ecs : cs = map fst CB) by (unfold CB; rewrite map_rev, E1, rev_involutive; reflexivity).
+        assert (Ho_eq : concat os = flat_map snd (rev CB)).
+        { unfold CB. rewrite rev_involutive, <- E2. symmetry. apply flat_map_concat_map. }
+        assert (HCB : Forall (fun cb => proper (fst cb) = true /\ length (ordering (fst cb)) <= f /\ Ord (fst cb) (snd cb) /\
+                                        Interval (fun s => In v s) (snd cb)) CB).
+        { apply (CB_props v KQ cs f (concat os) CB Hp Hlen Hint); [now rewrite <- Ecs|unfold CB; now apply Forall_rev|].
+          intros cb Hcb. rewrite Ho_eq. apply (sublist_flat_map snd (rev CB) cb). rewrite <- in_rev. exact Hcb. }
+        destruct (Hrun CB Ecs HCB) as (T & HG & HF & Heq).
+        assert (HnT : 2 <= length T) by (rewrite <- (Forall2_len' _ _ _ HF), <- (map_length fst CB), <- Ecs; exact Hn).
+        assert (HFr : Forall2 (fun cb x => ib x = snd cb) (rev CB) (rev T)) by now apply Forall2_rev.
+        assert (Hint' : Interval (fun s => In v s) (flat_map ib (if false then T else rev T)))
+          by (simpl; rewrite (F2_blocks (rev CB) (rev T) HFr), <- Ho_eq; exact Hint).
+        destruct (q_cases_complete v T false HnT HG Hint') as (t' & st & Ec & Hot & HU).
+        exists t', st. split; [now apply Heq|]. split; [|exact HU]. simpl in Hot.
+        rewrite Ho_eq, <- (F2_blocks (rev CB) (rev T) HFr). exact Hot.
+Qed.
+
+Corollary step_C : StepC.
+Proof. intros f v t o Hp Hl Ho Hi. destruct (step_full f v t o Hp Hl Ho Hi) as (t' & st & E & Ho' & _). eauto. Qed.
+
+(* COMPLETENESS of the mirrored reorder_sets *)
+Theorem pq_reorder_complete elems F : (exists res, SetsOK F res) -> exists res', pq_reorder elems F = Ok res'.
+Proof. apply (pq_reorder_complete_from_step step_C). Qed.
+
+Corollary pq_reorder_err elems F : pq_reorder elems F = Err ValueErr -> ~ exists res, SetsOK F res.
+Proof. apply (pq_reorder_err_from_step step_C). Qed.
